@@ -223,6 +223,16 @@ class Operation(ABC):
                 if backed_grad.dtype != var.dtype:
                     backed_grad = backed_grad.astype(var.dtype, copy=False)
 
+                if backed_grad.strides != var.data.strides and not (
+                    backed_grad.flags.c_contiguous and var.data.flags.c_contiguous
+                ):
+                    # store the gradient with the memory layout of the tensor's data so
+                    # that any view of the data (e.g. reshape, ravel) is also a view of
+                    # the gradient
+                    _grad = np.empty_like(var.data, dtype=backed_grad.dtype)
+                    _grad[...] = backed_grad
+                    backed_grad = _grad
+
                 var._grad = backed_grad
             else:
                 var._grad += backed_grad
